@@ -74,7 +74,9 @@ def summary(prog: Program, fi: FuncInfo, fa: Optional[FA] = None) -> Dict[str, o
 
     # part
     cs = ("self", "cumulative_sizes")
-    if D[0] == "call" and D[1][0] == "global" and D[1][1].endswith("bisect_right") and len(D[2]) == 2 and not D[3]:
+    # (bisect.bisect is the same function object as bisect.bisect_right)
+    if D[0] == "call" and D[1][0] == "global" and (D[1][1].endswith("bisect_right") or D[1][1] in ("bisect.bisect", "bisect")
+                                                   or D[1][1].endswith(".bisect.bisect")) and len(D[2]) == 2 and not D[3]:
         out["part"] = D[2][0] == cs and is_idx(D[2][1])
         if not out["part"]:
             out["why"].append(f"part index is {show(D)}, not bisect_right(self.cumulative_sizes, idx)")
